@@ -120,6 +120,25 @@ def main(tier):
                 a, b = rnd.sample(free, 2)
                 conns.append((a[0], a[1], 15, b[0], b[1], 15))
             scenes.append({'mode': mode, 'P': rnd.choice([0, 10]) if mode == 0 else 10, 'buf': 0, 'opts': rnd.randint(0, 31), 'shapes': shapes, 'conns': conns})
+    # three interior-disjoint rectangles, touching allowed, in every insertion order (a shape butted between two others)
+    fam3 = RC.gen_scenes(d, 8, 3, 0, tag='gen3')
+    triples = [st for st in fam3['scenes'] if len(st) == 3]
+    def touching(a, b):
+        return (a[2] == b[0] or b[2] == a[0]) and min(a[3], b[3]) > max(a[1], b[1]) or (a[3] == b[1] or b[3] == a[1]) and min(a[2], b[2]) > max(a[0], b[0])
+    chains = [st for st in triples if sum(touching(st[i], st[j]) for i in range(3) for j in range(i + 1, 3)) >= 2]
+    for st in chains * (2 if quick else 6):
+        order = list(st)
+        rnd.shuffle(order)
+        shapes = [RC.rect_poly(r) for r in order]
+        free = [p for p in pts if not any(RC.in_closed_convex(p, poly) for poly in shapes)]
+        if len(free) < 2:
+            continue
+        conns = []
+        for _ in range(6):
+            a, b = rnd.sample(free, 2)
+            conns.append((a[0], a[1], 15, b[0], b[1], 15))
+        md = rnd.choice([0, 0, 0, 1])
+        scenes.append({'mode': md, 'P': 10 if md else rnd.choice([0, 10]), 'buf': 0, 'opts': rnd.randint(0, 31) & ~1, 'shapes': shapes, 'conns': conns})
     nenum = len(scenes)
     for _ in range(300 if quick else 8000):
         scenes.append(random_scene(rnd, rnd.randint(0, 1)))
@@ -166,7 +185,8 @@ def main(tier):
             'orthogonal' if x['mode'] else 'polyline', x['buf'], x['opts'], x['P'],
             [[[p[0] // LS, p[1] // LS] for p in sh] for sh in x['polys']], [v / LS for v in x['src']], [v / LS for v in x['dst']],
             [[round(p[0] / LS, 3), round(p[1] / LS, 3)] for p in x['disp']])
-        key = 'visibility:segment-through-two-collinear-shape-vertices' if t == 'through-shape:via-two-of-its-vertices' else 'route:' + t
+        key = {'through-shape:via-two-of-its-vertices': 'visibility:segment-through-two-collinear-shape-vertices',
+               'through-shape:crossing-only-at-shape-vertices': 'visibility:touching-shapes:segment-crosses-boundary-only-at-shape-vertices'}.get(t, 'route:' + t)
         if t == 'through-shape' and x['mode'] == 0 and endpoint_in_mitred_buffer(x, LS):
             key = 'buffer:mitred-offset-of-acute-corner-contains-endpoint'
         if t in ('does-not-start-at-source', 'does-not-end-at-destination') and x['mode'] == 1 and (x['opts'] & 1):
